@@ -1,6 +1,7 @@
 (* C18 - Ufs confines clients to the exported root.
    Property theorems only (each closed by [exact] of a lemma proved elsewhere, followed by Print Assumptions). *)
 From Coq Require Import NArith List Bool.
+From V9 Require Shape.ShapeLib Shape.PUfs18.
 From V9 Require Import Lib.GoSem Lib.Bytes Gen.Consts Ufs.Path Ufs.Handlers Ufs.UfsProofs.
 Import ListNotations.
 Local Open Scope N_scope.
@@ -60,3 +61,10 @@ Example C18_nonvacuous :
   create_path root [46;46;47;120] = None /\
   rename_dest root [[114];[97]] [46;46;47;120] = None.              (* "../x" from /r/a would leave /r *)
 Proof. vm_compute. repeat split. Qed.
+
+
+(* ---- a modelling assumption about the shape of the CURRENT source (Gen/Shape.v), re-checked on every run ---- *)
+(* Attach joins the root with the name made absolute first (two Joins, no Clean of the bare name) *)
+Theorem C18_source_attach_anchors_at_the_root : ShapeLib.ufs_attach_anchors_at_root = true.
+Proof. exact PUfs18.ufs_attach_anchors_at_root_ok. Qed.
+Print Assumptions C18_source_attach_anchors_at_the_root.
